@@ -4,6 +4,8 @@
 -/
 import Distill.Driver.Proto
 import Distill.Model.DocFilters
+import Distill.Model.TableClass
+import Distill.Gen.Funcs
 namespace Distill.Slices
 open Distill Distill.Proto
 
@@ -52,9 +54,28 @@ def docfilters : P String := do
     | none => pure "panic retainer-underflow"
     | some out => pure s!"ok {flagsStr out}"
 
+/-- `tableclass nanc (tag ce)* nvt id* tree` → verdict of the generated cascade and of the
+documented cascade on the features the model extracts from the tree -/
+def tableclass : P String := do
+  let na ← nat
+  let anc ← many na (do let t ← str; let c ← str; pure (t, c))
+  let nv ← nat
+  let vt ← many nv nat
+  let t ← node
+  match tableFeatures anc (fun i => vt.contains i) t with
+  | none => pure "unmodelled"
+  | some f =>
+    let spec := goReturn (classifySpec f)
+    let napp := (tableRules.filter (fun r => r.guard f)).length
+    let thr := f.rows == 19 || f.rows == 20 || f.cols == 4 || f.cols == 5 || f.cells == 10 || f.cells == 11 || f.rows == 1 || f.cols == 1
+    match Gen.classify f with
+    | some (some g) => pure s!"ok {g.1} {g.2} {spec.1} {spec.2} {napp} {bstr thr}"
+    | _ => pure s!"gen-untranslated {spec.1} {spec.2}"
+
 def dispatch (slice : String) : Option (P String) :=
   match slice with
   | "docfilters" => some docfilters
+  | "tableclass" => some tableclass
   | _ => none
 
 def answer (line : String) : String :=
